@@ -16,7 +16,7 @@ RULE = (
     "'grid': exhaustive sweep of the complete resolution grid of each sexagesimal format on [-360, 360] degrees (%.3m every "
     "minute, %.5m every tenth of a minute, %.6m every second - strided in the quick tier -, strided sub-grids for %.8m/%.9m), "
     "each point also shifted by +-0.49 resolution units; 'formats': Hypothesis over printf formats %[-+ 0#]*[width][.prec]{d,f} "
-    "x floats in [-1e9, 1e9] mixed with constructed classes (negatives in (-1,0), values next to a field carry, integers, "
+    "(widths up to 80, precisions up to 60) x floats in [-1e9, 1e9] mixed with constructed classes (negatives in (-1,0), values next to a field carry, integers, "
     "width-overflowing); 'sexa': the same value classes x %[w].{3,5,6,8,9}m; 'grammar': exhaustive enumeration of the INDI "
     "number grammar (sign?, integer | decimal | 2-3 fields with ':' ';' blank, 1-2 digit minor fields, optional fraction on the "
     "last field) over the digit alphabet {0,1,5,9} up to length 8, crossed with 8 format classes; 'grammar-hyp': longer strings. "
